@@ -21,7 +21,8 @@ CHECKS = {
          "in use, the size bound, deadlock freedom, liveness under weak fairness (shutdown wakes every consumer; pool "
          "terminates), and exactly-once task execution. Executions of the real Queue/Pool recorded through OSMIUM_VERIF "
          "hooks at the linearization points under a seeded schedule perturbation are validated against the spec "
-         "(ThreadQueueTrace.tla), every invariant evaluated at every step.",
+         "(ThreadQueueTrace.tla), every invariant evaluated at every step; scenarios include several try_pop callers racing "
+         "on a nearly empty queue, one named task object submitted repeatedly, and 20000 (thorough 80000) shutdown storms.",
     design_ref="DESIGN.md section 4, C19",
     note="All interleavings are enumerated on the spec (2-3 threads per role, 2-4 items); on the real code schedules are "
          "perturbed and every observed execution validated, not enumerated. Trusted: std::mutex/condition_variable/"
@@ -278,7 +279,8 @@ CHECKS = {
          "real Reader under seeded schedule perturbation (hooks in queue/pool): mock decompressor+parser with nested buffers and "
          "out-of-order pool completion and real PBF files through the real PBF parser - API log == Expected(cfg) and the recorded "
          "event trace (queue hooks, read(2) interposition, mock events, API calls) validated by TLC against "
-         "ReaderPipelineTrace.tla; real XML/OPL/PBF files written by the library with every entity selection, read_meta on/off, "
+         "ReaderPipelineTrace.tla; real XML/OPL/PBF files (every second one a history file with deleted versions, whose visible "
+         "flag must arrive with and without read_meta) written by the library with every entity selection, read_meta on/off, "
          "buffers_type any/single, pool sizes 1/2/4, queue bounds 2/3/20 - flattened object sequence == the selected objects of the "
          "model's file in order, complete when the end marker was returned.",
     design_ref="DESIGN.md section 4, C05/C07",
